@@ -21,6 +21,7 @@ package rtcp
 //@   ensures[C03,C05,C08,C16] ok: (err == nil) <==> h.Count <= 31
 //@   ensures[C03,C05,C16] layout: err == nil ==> len(result) == 4 && be32(result, 0) == specHeaderWord(h.Padding, h.Count, uint8(h.Type), h.Length)
 //@   ensures[C08] nobytes: err != nil ==> len(result) == 0
+//@   ensures intlen: err == nil ==> int(be16(result, 2)) == int(h.Length) && result[1] == uint8(h.Type) && result[0]&31 == h.Count && result[0]>>6 == 2 && (result[0]>>5&1 == 1) == h.Padding
 
 //@ func (h *Header) Unmarshal(rawPacket []byte) (err error)
 //@   safety[C01]
@@ -96,6 +97,7 @@ package rtcp
 //@   ensures[C03,C05] size: err == nil ==> len(result) == 28 + 24*len(r.Reports) + len(r.ProfileExtensions) + specPad4(len(r.ProfileExtensions))
 //@   ensures[C05] aligned: err == nil ==> len(result)%4 == 0
 //@   ensures[C03,C05,C07] header: err == nil && len(result) <= 4*65536 ==> be32(result, 0) == specHeaderWord(false, uint8(len(r.Reports)), 200, uint16(len(result)/4-1))
+//@   ensures[C05,C08] countfield: err == nil ==> int(result[0]&31) == len(r.Reports)
 //@   ensures[C03] fixed: err == nil ==> be32(result, 4) == r.SSRC && be64(result, 8) == r.NTPTime && be32(result, 16) == r.RTPTime && be32(result, 20) == r.PacketCount && be32(result, 24) == r.OctetCount
 //@   ensures[C03] reports: forall k :: err == nil && 0 <= k && k < len(r.Reports) ==> specRREncoded(result, 28+24*k, r.Reports[k])
 //@   ensures[C03] ext: forall k :: err == nil && 0 <= k && k < len(r.ProfileExtensions) ==> result[28+24*len(r.Reports)+k] == r.ProfileExtensions[k]
@@ -160,6 +162,7 @@ package rtcp
 //@   ensures[C03,C05] size: err == nil ==> len(result) == 8 + 24*len(r.Reports) + len(r.ProfileExtensions) + specPad4(len(r.ProfileExtensions))
 //@   ensures[C05] aligned: err == nil ==> len(result)%4 == 0
 //@   ensures[C03,C05,C07] header: err == nil && len(result) <= 4*65536 ==> be32(result, 0) == specHeaderWord(false, uint8(len(r.Reports)), 201, uint16(len(result)/4-1))
+//@   ensures[C05,C08] countfield: err == nil ==> int(result[0]&31) == len(r.Reports)
 //@   ensures[C03] fixed: err == nil ==> be32(result, 4) == r.SSRC
 //@   ensures[C03] reports: forall k :: err == nil && 0 <= k && k < len(r.Reports) ==> specRREncoded(result, 8+24*k, r.Reports[k])
 //@   ensures[C03] ext: forall k :: err == nil && 0 <= k && k < len(r.ProfileExtensions) ==> result[8+24*len(r.Reports)+k] == r.ProfileExtensions[k]
@@ -225,8 +228,10 @@ package rtcp
 //@   ensures[C08] ok: (err == nil) <==> (len(g.Sources) <= 31 && len(g.Reason) <= 255)
 //@   ensures[C08] nobytes: err != nil ==> len(result) == 0
 //@   ensures[C03,C05] size: err == nil ==> len(result) == specByeSize(len(g.Sources), len(g.Reason))
+//@   ensures[C02,C05] lenfield: err == nil ==> int(be16(result, 2)) == len(result)/4 - 1 && result[0]>>6 == 2 && result[1] == 203 && int(result[0]&31) == len(g.Sources)
 //@   ensures[C05] aligned: err == nil ==> len(result)%4 == 0
 //@   ensures[C03,C05,C07] header: err == nil ==> be32(result, 0) == specHeaderWord(false, uint8(len(g.Sources)), 203, uint16(len(result)/4-1))
+//@   ensures[C05,C08] countfield: err == nil ==> int(result[0]&31) == len(g.Sources)
 //@   ensures[C03] sources: forall k :: err == nil && 0 <= k && k < len(g.Sources) ==> be32(result, 4+4*k) == g.Sources[k]
 //@   ensures[C03] reasonlen: err == nil && len(g.Reason) > 0 ==> result[4+4*len(g.Sources)] == uint8(len(g.Reason))
 //@   ensures[C03] reason: forall k :: err == nil && 0 <= k && k < len(g.Reason) ==> result[4+4*len(g.Sources)+1+k] == g.Reason[k]
@@ -286,6 +291,7 @@ package rtcp
 //@   ensures[C08] ok: (err == nil) <==> (len(a.Data) <= 0xFFFF-12 && len(a.Name) == 4 && a.SubType <= 31)
 //@   ensures[C08] nobytes: err != nil ==> len(result) == 0
 //@   ensures[C03,C05] size: err == nil ==> len(result) == specAppSize(len(a.Data))
+//@   ensures[C02,C05] lenfield: err == nil ==> int(be16(result, 2)) == len(result)/4 - 1 && result[0]>>6 == 2 && result[1] == 204 && result[0]&31 == a.SubType && (result[0]>>5&1 == 1) == (len(a.Data)%4 != 0)
 //@   ensures[C05] aligned: err == nil ==> len(result)%4 == 0
 //@   ensures[C03,C05,C07] header: err == nil ==> be32(result, 0) == specHeaderWord(len(a.Data)%4 != 0, a.SubType, 204, uint16(len(result)/4-1))
 //@   ensures[C03] ssrc: err == nil ==> be32(result, 4) == a.SSRC
@@ -394,6 +400,8 @@ package rtcp
 //@   safety[C09]
 //@   fresh
 //@   ensures[C08] ok: len(p.SLI) <= 253 ==> err == nil
+//@   ensures[C08] limit: err == nil ==> len(p.SLI) <= 253
+//@   ensures[C02,C05] lenfield: err == nil ==> int(be16(result, 2)) == len(result)/4 - 1
 //@   ensures[C08] nobytes: err != nil ==> len(result) == 0
 //@   ensures[C03,C05] size: err == nil ==> len(result) == 12 + 4*len(p.SLI)
 //@   ensures[C03,C05] header: err == nil ==> result[0] == 0x82 && be16(result, 2) == uint16(len(result)/4-1)
@@ -447,6 +455,7 @@ package rtcp
 //@   fresh
 //@   ensures[C08] ok: err == nil
 //@   ensures[C03,C05] size: len(result) == 12 + 8*len(p.FIR)
+//@   ensures[C02,C05] lenfield: len(result) <= 4*65536 ==> int(be16(result, 2)) == len(result)/4 - 1 && result[0] == 0x84 && result[1] == 206
 //@   ensures[C03,C05,C07] header: len(result) <= 4*65536 ==> be32(result, 0) == specHeaderWord(false, 4, 206, uint16(len(result)/4-1))
 //@   ensures[C03] body: be32(result, 4) == p.SenderSSRC && be32(result, 8) == p.MediaSSRC
 //@   ensures[C03,C16] entries: forall k :: 0 <= k && k < len(p.FIR) ==> be32(result, 12+8*k) == p.FIR[k].SSRC && result[12+8*k+4] == p.FIR[k].SequenceNumber && be24(result, 12+8*k+5) == 0
@@ -505,6 +514,8 @@ package rtcp
 //@   safety[C09]
 //@   fresh
 //@   ensures[C08] ok: len(p.Nacks) <= 253 ==> err == nil
+//@   ensures[C08] limit: err == nil ==> len(p.Nacks) <= 253
+//@   ensures[C02,C05] lenfield: err == nil ==> int(be16(result, 2)) == len(result)/4 - 1 && result[0] == 0x81 && result[1] == 205
 //@   ensures[C08] nobytes: err != nil ==> len(result) == 0
 //@   ensures[C03,C05] size: err == nil ==> len(result) == 12 + 4*len(p.Nacks)
 //@   ensures[C03,C05,C07] header: err == nil ==> be32(result, 0) == specHeaderWord(false, 1, 205, uint16(len(result)/4-1))
@@ -674,6 +685,7 @@ package rtcp
 //@   ensures[C03,C05] size: err == nil ==> len(result) == 4 + specChunksLen(s.Chunks, len(s.Chunks))
 //@   ensures[C05] aligned: err == nil ==> len(result)%4 == 0
 //@   ensures[C03,C05,C07] header: err == nil && len(result) <= 4*65536 ==> be32(result, 0) == specHeaderWord(false, uint8(len(s.Chunks)), 202, uint16(len(result)/4-1))
+//@   ensures[C05,C08] countfield: err == nil ==> int(result[0]&31) == len(s.Chunks)
 //@   loop 1
 //@     invariant 0 <= iter() && iter() <= len(s.Chunks) && chunkOffset == specChunksLen(s.Chunks, iter()) && chunkOffset >= 0
 //@     decreases len(s.Chunks) - iter()
@@ -760,16 +772,17 @@ package rtcp
 //@   requires[C14] notnan: p.Bitrate == p.Bitrate
 //@   ensures[C08,C14] ok: (err == nil) <==> (len(buf) >= 20+4*len(p.SSRCs) && !(p.Bitrate < 0) && len(p.SSRCs) <= 255)
 //@   ensures[C05,C14] n: err == nil ==> n == 20 + 4*len(p.SSRCs)
+//@   ensures[C02,C05] lenfield: err == nil ==> int(be16(buf, 2)) == 4 + len(p.SSRCs)
 //@   ensures[C03,C05,C07] header: err == nil ==> buf[0] == 0x8f && buf[1] == 206 && be16(buf, 2) == uint16((20+4*len(p.SSRCs))/4-1)
 //@   ensures[C03] fixed: err == nil ==> be32(buf, 4) == p.SenderSSRC && be32(buf, 8) == 0 && buf[12] == 'R' && buf[13] == 'E' && buf[14] == 'M' && buf[15] == 'B'
 //@   ensures[C03,C08,C14] count: err == nil ==> int(buf[16]) == len(p.SSRCs)
 //@   ensures[C03] ssrcs: forall k :: err == nil && 0 <= k && k < len(p.SSRCs) ==> be32(buf, 20+4*k) == p.SSRCs[k]
-//@   ensures[C14] below: err == nil ==> specRembValue(specRembMantissa(buf), buf[17]>>2) <= p.Bitrate
-//@   ensures[C14] normal: err == nil ==> buf[17]>>2 == 0 || specRembMantissa(buf) >= 1<<17
-//@   ensures[C14] tight: err == nil ==> p.Bitrate < specRembRaw(specRembMantissa(buf)+1, buf[17]>>2) || (specRembMantissa(buf) == 0x3FFFF && buf[17]>>2 == 63)
+//@   ensures[C03,C14] below: err == nil ==> specRembValue(specRembMantissa(buf), buf[17]>>2) <= p.Bitrate
+//@   ensures[C03,C14] normal: err == nil ==> buf[17]>>2 == 0 || specRembMantissa(buf) >= 1<<17
+//@   ensures[C03,C14] tight: err == nil ==> p.Bitrate < specRembRaw(specRembMantissa(buf)+1, buf[17]>>2) || (specRembMantissa(buf) == 0x3FFFF && buf[17]>>2 == 63)
 //@   loop 1
 //@     invariant 0 <= exp && exp <= 64 && bitrate >= 0 && bitrate * specPow2i(exp) == specRembClamp(p.Bitrate) && (exp == 0 || bitrate >= 1<<17)
-//@     invariant buf[0] == 0x8f && buf[1] == 206 && be16(buf, 2) == uint16((20+4*len(p.SSRCs))/4-1) && be32(buf, 4) == p.SenderSSRC && be32(buf, 8) == 0 && buf[12] == 'R' && buf[13] == 'E' && buf[14] == 'M' && buf[15] == 'B' && int(buf[16]) == len(p.SSRCs)
+//@     invariant buf[0] == 0x8f && buf[1] == 206 && be16(buf, 2) == uint16((20+4*len(p.SSRCs))/4-1) && int(be16(buf, 2)) == 4 + len(p.SSRCs) && be32(buf, 4) == p.SenderSSRC && be32(buf, 8) == 0 && buf[12] == 'R' && buf[13] == 'E' && buf[14] == 'M' && buf[15] == 'B' && int(buf[16]) == len(p.SSRCs)
 //@     decreases 64 - exp
 //@     cases exp 0 64
 //@   loop 2
@@ -785,13 +798,14 @@ package rtcp
 //@   ensures[C08,C14] ok: (err == nil) <==> (!(p.Bitrate < 0) && len(p.SSRCs) <= 255)
 //@   ensures[C08] nobytes: err != nil ==> len(buf) == 0
 //@   ensures[C03,C05] size: err == nil ==> len(buf) == 20 + 4*len(p.SSRCs)
+//@   ensures[C02,C05] lenfield: err == nil ==> int(be16(buf, 2)) == 4 + len(p.SSRCs)
 //@   ensures[C03,C05,C07] header: err == nil ==> buf[0] == 0x8f && buf[1] == 206 && be16(buf, 2) == uint16(len(buf)/4-1)
 //@   ensures[C03] fixed: err == nil ==> be32(buf, 4) == p.SenderSSRC && be32(buf, 8) == 0 && buf[12] == 'R' && buf[13] == 'E' && buf[14] == 'M' && buf[15] == 'B'
 //@   ensures[C03,C08,C14] count: err == nil ==> int(buf[16]) == len(p.SSRCs)
 //@   ensures[C03] ssrcs: forall k :: err == nil && 0 <= k && k < len(p.SSRCs) ==> be32(buf, 20+4*k) == p.SSRCs[k]
-//@   ensures[C14] below: err == nil ==> specRembValue(specRembMantissa(buf), buf[17]>>2) <= p.Bitrate
-//@   ensures[C14] normal: err == nil ==> buf[17]>>2 == 0 || specRembMantissa(buf) >= 1<<17
-//@   ensures[C14] tight: err == nil ==> p.Bitrate < specRembRaw(specRembMantissa(buf)+1, buf[17]>>2) || (specRembMantissa(buf) == 0x3FFFF && buf[17]>>2 == 63)
+//@   ensures[C03,C14] below: err == nil ==> specRembValue(specRembMantissa(buf), buf[17]>>2) <= p.Bitrate
+//@   ensures[C03,C14] normal: err == nil ==> buf[17]>>2 == 0 || specRembMantissa(buf) >= 1<<17
+//@   ensures[C03,C14] tight: err == nil ==> p.Bitrate < specRembRaw(specRembMantissa(buf)+1, buf[17]>>2) || (specRembMantissa(buf) == 0x3FFFF && buf[17]>>2 == 63)
 
 // ===================================================================================================
 // util.go (bit helpers)
@@ -1103,10 +1117,6 @@ package rtcp
 //@ func (x ExtendedReport) MarshalSize() (result int)
 //@   trusted
 
-//@ func (x *ExtendedReport) DestinationSSRC() (result []uint32)
-//@   trusted
-//@   fresh
-
 //@ func (x *ExtendedReport) String() (result string)
 //@   trusted
 
@@ -1157,7 +1167,7 @@ package rtcp
 //@     decreases len(rawData)
 
 //@ func Marshal(packets []Packet) (result []byte, err error)
-//@   safety[C09]
+//@   safety[C18]
 //@   mathint
 //@   ensures[C08] nobytes: err != nil ==> len(result) == 0
 //@   loop 1
@@ -1178,7 +1188,7 @@ package rtcp
 //@   rec
 
 //@ func (c CompoundPacket) Validate() (err error)
-//@   safety[C09,C11]
+//@   safety[C11]
 //@   ensures[C11] exact: (err == nil) <==> specCompoundValid(c)
 //@   loop 1
 //@     invariant 0 <= iter() && iter() <= len(c)-1 && len(c) >= 1 && specFirstIsReport(c)
@@ -1194,7 +1204,7 @@ package rtcp
 //@     decreases len(c.Items) - iter()
 
 //@ func (c CompoundPacket) Marshal() (result []byte, err error)
-//@   safety[C09]
+//@   safety[C11]
 //@   ensures[C11] validates: err == nil ==> specCompoundValid(c)
 //@   ensures[C08] nobytes: err != nil ==> len(result) == 0
 
@@ -1210,8 +1220,8 @@ package rtcp
 //@     decreases len(rawData)
 
 //@ func (c CompoundPacket) MarshalSize() (result int)
-//@   safety[C09]
-//@   requires[C09] members: forall k :: 0 <= k && k < len(c) ==> c[k] != nil
+//@   safety[C11]
+//@   requires[C11] members: forall k :: 0 <= k && k < len(c) ==> c[k] != nil
 //@   mathint
 //@   loop 1
 //@     invariant 0 <= iter() && iter() <= len(c)
@@ -1265,3 +1275,272 @@ package rtcp
 //@     invariant 1 <= i && i <= len(sequenceNumbers) && nackPair != nil
 //@     invariant[C12] forall x uint16 :: (specPairsCover(pairs, len(pairs), x) || specPairCovers(*nackPair, x)) <==> specMember(sequenceNumbers, i, x)
 //@     decreases len(sequenceNumbers) - i
+
+// ===================================================================================================
+// extended_report.go — the parts that do not go through reflection
+// ===================================================================================================
+
+//@ func wireSize(v interface{}) (result int)
+//@   trusted
+
+//@ func specXRDestCount(bs []ReportBlock, n int) (result int)
+//@   rec
+
+//@ func (t BlockTypeType) String() (result string)
+//@   safety[C17]
+
+//@ func (t TTLorHopLimitType) String() (result string)
+//@   safety[C17]
+
+//@ func (c Chunk) String() (result string)
+//@   safety[C17]
+
+//@ func (c Chunk) Type() (result ChunkType)
+//@   safety[C17]
+//@   ensures[C16] kind: (c == 0 ==> result == 2) && (c != 0 ==> result == ChunkType(c>>15))
+
+//@ func (c Chunk) RunType() (result uint, err error)
+//@   safety[C17]
+//@   ensures[C16] run: (err == nil) <==> (c != 0 && c>>15 == 0)
+//@   ensures[C16] value: err == nil ==> result == uint(c>>14&1)
+
+//@ func (c Chunk) Value() (result uint)
+//@   safety[C17]
+//@   ensures[C16] value: (c == 0 ==> result == 0) && (c != 0 && c>>15 == 0 ==> result == uint(c&0x3FFF)) && (c>>15 == 1 ==> result == uint(c&0x7FFF))
+
+//@ func (b *LossRLEReportBlock) DestinationSSRC() (result []uint32)
+//@   safety[C10]
+//@   fresh
+//@   ensures[C10] one: len(result) == 1 && result[0] == b.SSRC
+
+//@ func (b *DuplicateRLEReportBlock) DestinationSSRC() (result []uint32)
+//@   safety[C10]
+//@   fresh
+//@   ensures[C10] one: len(result) == 1 && result[0] == b.SSRC
+
+//@ func (b *PacketReceiptTimesReportBlock) DestinationSSRC() (result []uint32)
+//@   safety[C10]
+//@   fresh
+//@   ensures[C10] one: len(result) == 1 && result[0] == b.SSRC
+
+//@ func (b *ReceiverReferenceTimeReportBlock) DestinationSSRC() (result []uint32)
+//@   safety[C10]
+//@   fresh
+//@   ensures[C10] none: len(result) == 0
+
+//@ func (b *DLRRReportBlock) DestinationSSRC() (result []uint32)
+//@   safety[C10]
+//@   fresh
+//@   ensures[C10] n: len(result) == len(b.Reports)
+//@   ensures[C10] each: forall k :: 0 <= k && k < len(b.Reports) ==> result[k] == b.Reports[k].SSRC
+//@   loop 1
+//@     invariant 0 <= iter() && iter() <= len(b.Reports)
+//@     invariant[C10] forall k :: 0 <= k && k < iter() ==> ssrc[k] == b.Reports[k].SSRC
+//@     decreases len(b.Reports) - iter()
+
+//@ func (b *StatisticsSummaryReportBlock) DestinationSSRC() (result []uint32)
+//@   safety[C10]
+//@   fresh
+//@   ensures[C10] one: len(result) == 1 && result[0] == b.SSRC
+
+//@ func (b *VoIPMetricsReportBlock) DestinationSSRC() (result []uint32)
+//@   safety[C10]
+//@   fresh
+//@   ensures[C10] one: len(result) == 1 && result[0] == b.SSRC
+
+//@ func (b *UnknownReportBlock) DestinationSSRC() (result []uint32)
+//@   safety[C10]
+//@   fresh
+//@   ensures[C10] none: len(result) == 0
+
+//@ func (b *LossRLEReportBlock) setupBlockHeader()
+//@   safety[C09]
+//@   modifies *b
+//@   ensures[C09,C16] header: b.XRHeader.BlockType == 1 && b.XRHeader.TypeSpecific == TypeSpecificField(b.T&0x0F)
+//@   ensures[C18] onlyheader: b.T == old(b.T) && b.SSRC == old(b.SSRC) && b.BeginSeq == old(b.BeginSeq) && b.EndSeq == old(b.EndSeq) && sameSlice(b.Chunks, old(b.Chunks))
+
+//@ func (b *LossRLEReportBlock) unpackBlockHeader()
+//@   safety[C01]
+//@   modifies *b
+//@   allocates[C01] 0
+//@   ensures[C04,C16] t: b.T == uint8(old(b.XRHeader.TypeSpecific))&0x0F
+
+//@ func (b *DuplicateRLEReportBlock) setupBlockHeader()
+//@   safety[C09]
+//@   modifies *b
+//@   ensures[C09,C16] header: b.XRHeader.BlockType == 2 && b.XRHeader.TypeSpecific == TypeSpecificField(b.T&0x0F)
+//@   ensures[C18] onlyheader: b.T == old(b.T) && b.SSRC == old(b.SSRC) && b.BeginSeq == old(b.BeginSeq) && b.EndSeq == old(b.EndSeq) && sameSlice(b.Chunks, old(b.Chunks))
+
+//@ func (b *DuplicateRLEReportBlock) unpackBlockHeader()
+//@   safety[C01]
+//@   modifies *b
+//@   allocates[C01] 0
+//@   ensures[C04,C16] t: b.T == uint8(old(b.XRHeader.TypeSpecific))&0x0F
+
+//@ func (b *PacketReceiptTimesReportBlock) setupBlockHeader()
+//@   safety[C09]
+//@   modifies *b
+//@   ensures[C09,C16] header: b.XRHeader.BlockType == 3 && b.XRHeader.TypeSpecific == TypeSpecificField(b.T&0x0F)
+//@   ensures[C18] onlyheader: b.T == old(b.T) && b.SSRC == old(b.SSRC) && b.BeginSeq == old(b.BeginSeq) && b.EndSeq == old(b.EndSeq) && sameSlice(b.ReceiptTime, old(b.ReceiptTime))
+
+//@ func (b *PacketReceiptTimesReportBlock) unpackBlockHeader()
+//@   safety[C01]
+//@   modifies *b
+//@   allocates[C01] 0
+//@   ensures[C04,C16] t: b.T == uint8(old(b.XRHeader.TypeSpecific))&0x0F
+
+//@ func (b *StatisticsSummaryReportBlock) setupBlockHeader()
+//@   safety[C09]
+//@   modifies *b
+//@   ensures[C09,C16] header: b.XRHeader.BlockType == 6 && b.XRHeader.TypeSpecific == specStatSummaryBits(b.LossReports, b.DuplicateReports, b.JitterReports, b.TTLorHopLimit)
+//@   ensures[C18] onlyheader: b.LossReports == old(b.LossReports) && b.DuplicateReports == old(b.DuplicateReports) && b.JitterReports == old(b.JitterReports) && b.TTLorHopLimit == old(b.TTLorHopLimit) && b.SSRC == old(b.SSRC) && b.LostPackets == old(b.LostPackets)
+
+//@ func (b *StatisticsSummaryReportBlock) unpackBlockHeader()
+//@   safety[C01]
+//@   modifies *b
+//@   allocates[C01] 0
+//@   ensures[C04,C16] bits: specStatSummaryBits(b.LossReports, b.DuplicateReports, b.JitterReports, b.TTLorHopLimit) == old(b.XRHeader.TypeSpecific)&0xF8
+
+//@ func (x *ExtendedReport) DestinationSSRC() (result []uint32)
+//@   safety[C10]
+//@   fresh
+//@   mathint
+//@   requires blocks: forall k :: 0 <= k && k < len(x.Reports) ==> x.Reports[k] != nil
+//@   ensures[C10] n: len(result) == 1 + specXRDestCount(x.Reports, len(x.Reports))
+//@   ensures[C10] sender: result[0] == x.SenderSSRC
+//@   loop 1
+//@     invariant 0 <= iter() && iter() <= len(x.Reports) && len(ssrc) == 1 + specXRDestCount(x.Reports, iter()) && len(ssrc) >= 1
+//@     invariant[C10] ssrc[0] == x.SenderSSRC
+//@     decreases len(x.Reports) - iter()
+
+// ===================================================================================================
+// Round-trip lemmas (C02) and re-encode lemmas (C09): ghost functions in verif_specs.go, verified like any
+// other function; the calls to Marshal/Unmarshal inside them are replaced by those functions' contracts, so
+// each lemma is a consequence of the C03/C04/C05/C08 clauses of the two functions.
+// ===================================================================================================
+
+//@ func lemmaRoundTripSR(p SenderReport) (q SenderReport, err error, err2 error)
+//@   lemma
+//@   requires fits: 28 + 24*len(p.Reports) + len(p.ProfileExtensions) + 3 <= 4*65536
+//@   ensures[C02] decodes: err == nil ==> err2 == nil
+//@   ensures[C02] fixed: err == nil ==> q.SSRC == p.SSRC && q.NTPTime == p.NTPTime && q.RTPTime == p.RTPTime && q.PacketCount == p.PacketCount && q.OctetCount == p.OctetCount && len(q.Reports) == len(p.Reports)
+//@   ensures[C02] reports: forall k :: err == nil && 0 <= k && k < len(p.Reports) ==> q.Reports[k] == p.Reports[k]
+//@   ensures[C02] extlen: err == nil ==> len(q.ProfileExtensions) == len(p.ProfileExtensions) + specPad4(len(p.ProfileExtensions))
+//@   ensures[C02] ext: forall k :: err == nil && 0 <= k && k < len(p.ProfileExtensions) ==> q.ProfileExtensions[k] == p.ProfileExtensions[k]
+
+//@ func lemmaRoundTripRR(p ReceiverReport) (q ReceiverReport, err error, err2 error)
+//@   lemma
+//@   requires fits: 8 + 24*len(p.Reports) + len(p.ProfileExtensions) + 3 <= 4*65536
+//@   ensures[C02] decodes: err == nil ==> err2 == nil
+//@   ensures[C02] fixed: err == nil ==> q.SSRC == p.SSRC && len(q.Reports) == len(p.Reports)
+//@   ensures[C02] reports: forall k :: err == nil && 0 <= k && k < len(p.Reports) ==> q.Reports[k] == p.Reports[k]
+//@   ensures[C02] extlen: err == nil ==> len(q.ProfileExtensions) == len(p.ProfileExtensions) + specPad4(len(p.ProfileExtensions))
+//@   ensures[C02] ext: forall k :: err == nil && 0 <= k && k < len(p.ProfileExtensions) ==> q.ProfileExtensions[k] == p.ProfileExtensions[k]
+
+//@ func lemmaRoundTripBYE(p Goodbye) (q Goodbye, err error, err2 error)
+//@   lemma
+//@   ensures[C02] decodes: err == nil ==> err2 == nil
+//@   ensures[C02] n: err == nil ==> len(q.Sources) == len(p.Sources) && len(q.Reason) == len(p.Reason)
+//@   ensures[C02] sources: forall k :: err == nil && 0 <= k && k < len(p.Sources) ==> q.Sources[k] == p.Sources[k]
+//@   ensures[C02] reason: forall k :: err == nil && 0 <= k && k < len(p.Reason) ==> q.Reason[k] == p.Reason[k]
+
+//@ func lemmaRoundTripAPP(p ApplicationDefined) (q ApplicationDefined, err error, err2 error)
+//@   lemma
+//@   ensures[C02] decodes: err == nil ==> err2 == nil
+//@   ensures[C02] fields: err == nil ==> q.SubType == p.SubType && q.SSRC == p.SSRC && len(q.Name) == 4 && len(q.Data) == len(p.Data)
+//@   ensures[C02] name: forall k :: err == nil && 0 <= k && k < 4 ==> q.Name[k] == p.Name[k]
+//@   ensures[C02] data: forall k :: err == nil && 0 <= k && k < len(p.Data) ==> q.Data[k] == p.Data[k]
+
+//@ func lemmaRoundTripNACK(p TransportLayerNack) (q TransportLayerNack, err error, err2 error)
+//@   lemma
+//@   requires nonempty: len(p.Nacks) >= 1
+//@   ensures[C02] decodes: err == nil ==> err2 == nil
+//@   ensures[C02] fields: err == nil ==> q.SenderSSRC == p.SenderSSRC && q.MediaSSRC == p.MediaSSRC && len(q.Nacks) == len(p.Nacks)
+//@   ensures[C02] pairs: forall k :: err == nil && 0 <= k && k < len(p.Nacks) ==> q.Nacks[k] == p.Nacks[k]
+
+//@ func lemmaRoundTripRRR(p RapidResynchronizationRequest) (q RapidResynchronizationRequest, err error, err2 error)
+//@   lemma
+//@   ensures[C02] same: err == nil && err2 == nil && q == p
+
+//@ func lemmaRoundTripPLI(p PictureLossIndication) (q PictureLossIndication, err error, err2 error)
+//@   lemma
+//@   ensures[C02] same: err == nil && err2 == nil && q == p
+
+//@ func lemmaRoundTripSLI(p SliceLossIndication) (q SliceLossIndication, err error, err2 error)
+//@   lemma
+//@   ensures[C02] decodes: err == nil ==> err2 == nil
+//@   ensures[C02] fields: err == nil ==> q.SenderSSRC == p.SenderSSRC && q.MediaSSRC == p.MediaSSRC && len(q.SLI) == len(p.SLI)
+//@   ensures[C02] entries: forall k :: err == nil && 0 <= k && k < len(p.SLI) && p.SLI[k].First < 1<<13 && p.SLI[k].Number < 1<<13 && p.SLI[k].Picture < 1<<6 ==> q.SLI[k] == p.SLI[k]
+
+//@ func lemmaRoundTripFIR(p FullIntraRequest) (q FullIntraRequest, err error, err2 error)
+//@   lemma
+//@   requires nonempty: len(p.FIR) >= 1 && len(p.FIR) <= 8190
+//@   ensures[C02] decodes: err == nil ==> err2 == nil
+//@   ensures[C02] fields: err == nil ==> q.SenderSSRC == p.SenderSSRC && q.MediaSSRC == p.MediaSSRC && len(q.FIR) == len(p.FIR)
+//@   ensures[C02] entries: forall k :: err == nil && 0 <= k && k < len(p.FIR) ==> q.FIR[k] == p.FIR[k]
+
+//@ func lemmaRoundTripREMB(p ReceiverEstimatedMaximumBitrate) (q ReceiverEstimatedMaximumBitrate, err error, err2 error)
+//@   lemma
+//@   requires notnan: p.Bitrate == p.Bitrate
+//@   ensures[C02] decodes: err == nil ==> err2 == nil
+//@   ensures[C02] fields: err == nil ==> q.SenderSSRC == p.SenderSSRC && len(q.SSRCs) == len(p.SSRCs)
+//@   ensures[C02] ssrcs: forall k :: err == nil && 0 <= k && k < len(p.SSRCs) ==> q.SSRCs[k] == p.SSRCs[k]
+//@   ensures[C02,C14] quantised: err == nil && p.Bitrate >= 1 ==> q.Bitrate <= p.Bitrate
+
+//@ func lemmaReencodeSR(raw []byte) (p SenderReport, q SenderReport, err error, err2 error, err3 error)
+//@   lemma
+//@   requires frame: len(raw) <= 4*65536
+//@   ensures[C09] accepted: err == nil && err2 == nil ==> err3 == nil
+//@   ensures[C09] fixed: err == nil && err2 == nil ==> q.SSRC == p.SSRC && q.NTPTime == p.NTPTime && q.RTPTime == p.RTPTime && q.PacketCount == p.PacketCount && q.OctetCount == p.OctetCount && len(q.Reports) == len(p.Reports)
+//@   ensures[C09] reports: forall k :: err == nil && err2 == nil && 0 <= k && k < len(p.Reports) ==> q.Reports[k] == p.Reports[k]
+//@   ensures[C09] ext: forall k :: err == nil && err2 == nil && 0 <= k && k < len(p.ProfileExtensions) ==> q.ProfileExtensions[k] == p.ProfileExtensions[k]
+
+//@ func lemmaReencodeRR(raw []byte) (p ReceiverReport, q ReceiverReport, err error, err2 error, err3 error)
+//@   lemma
+//@   requires frame: len(raw) <= 4*65536
+//@   ensures[C09] accepted: err == nil && err2 == nil ==> err3 == nil
+//@   ensures[C09] fixed: err == nil && err2 == nil ==> q.SSRC == p.SSRC && len(q.Reports) == len(p.Reports)
+//@   ensures[C09] reports: forall k :: err == nil && err2 == nil && 0 <= k && k < len(p.Reports) ==> q.Reports[k] == p.Reports[k]
+//@   ensures[C09] ext: forall k :: err == nil && err2 == nil && 0 <= k && k < len(p.ProfileExtensions) ==> q.ProfileExtensions[k] == p.ProfileExtensions[k]
+
+//@ func lemmaReencodeBYE(raw []byte) (p Goodbye, q Goodbye, err error, err2 error, err3 error)
+//@   lemma
+//@   ensures[C09] accepted: err == nil && err2 == nil ==> err3 == nil
+//@   ensures[C09] n: err == nil && err2 == nil ==> len(q.Sources) == len(p.Sources) && len(q.Reason) == len(p.Reason)
+//@   ensures[C09] sources: forall k :: err == nil && err2 == nil && 0 <= k && k < len(p.Sources) ==> q.Sources[k] == p.Sources[k]
+//@   ensures[C09] reason: forall k :: err == nil && err2 == nil && 0 <= k && k < len(p.Reason) ==> q.Reason[k] == p.Reason[k]
+
+//@ func lemmaReencodeNACK(raw []byte) (p TransportLayerNack, q TransportLayerNack, err error, err2 error, err3 error)
+//@   lemma
+//@   requires frame: len(raw) <= 4*16383
+//@   ensures[C09] accepted: err == nil && err2 == nil ==> err3 == nil
+//@   ensures[C09] fields: err == nil && err2 == nil ==> q.SenderSSRC == p.SenderSSRC && q.MediaSSRC == p.MediaSSRC && len(q.Nacks) == len(p.Nacks)
+//@   ensures[C09] pairs: forall k :: err == nil && err2 == nil && 0 <= k && k < len(p.Nacks) ==> q.Nacks[k] == p.Nacks[k]
+
+//@ func lemmaReencodeFIR(raw []byte) (p FullIntraRequest, q FullIntraRequest, err error, err2 error, err3 error)
+//@   lemma
+//@   requires frame: len(raw) <= 4*16383
+//@   ensures[C09] accepted: err == nil && err2 == nil && be16(raw, 2) < 16384 ==> err3 == nil
+//@   ensures[C09] fields: err == nil && err2 == nil && be16(raw, 2) < 16384 ==> q.SenderSSRC == p.SenderSSRC && q.MediaSSRC == p.MediaSSRC && len(q.FIR) == len(p.FIR)
+//@   ensures[C09] entries: forall k :: err == nil && err2 == nil && be16(raw, 2) < 16384 && 0 <= k && k < len(p.FIR) ==> q.FIR[k] == p.FIR[k]
+
+//@ func lemmaReencodeSLI(raw []byte) (p SliceLossIndication, q SliceLossIndication, err error, err2 error, err3 error)
+//@   lemma
+//@   requires frame: len(raw) <= 4*16383
+//@   ensures[C09] accepted: err == nil && err2 == nil ==> err3 == nil
+//@   ensures[C09] fields: err == nil && err2 == nil ==> q.SenderSSRC == p.SenderSSRC && q.MediaSSRC == p.MediaSSRC && len(q.SLI) == len(p.SLI)
+//@   ensures[C09] entries: forall k :: err == nil && err2 == nil && 0 <= k && k < len(p.SLI) ==> q.SLI[k] == p.SLI[k]
+
+//@ func lemmaReencodePLI(raw []byte) (p PictureLossIndication, q PictureLossIndication, err error, err2 error, err3 error)
+//@   lemma
+//@   ensures[C09] same: err == nil ==> err2 == nil && err3 == nil && q == p
+
+//@ func lemmaReencodeRRR(raw []byte) (p RapidResynchronizationRequest, q RapidResynchronizationRequest, err error, err2 error, err3 error)
+//@   lemma
+//@   ensures[C09] same: err == nil ==> err2 == nil && err3 == nil && q == p
+
+//@ func lemmaReencodeAPP(raw []byte) (p ApplicationDefined, q ApplicationDefined, err error, err2 error, err3 error)
+//@   lemma
+//@   ensures[C09] accepted: err == nil && err2 == nil ==> err3 == nil
+//@   ensures[C09] fields: err == nil && err2 == nil ==> q.SubType == p.SubType && q.SSRC == p.SSRC && len(q.Data) == len(p.Data)
+//@   ensures[C09] data: forall k :: err == nil && err2 == nil && 0 <= k && k < len(p.Data) ==> q.Data[k] == p.Data[k]
